@@ -84,6 +84,14 @@ NextLogEncode ==
   \/ \E k \in -2..2, m \in -2..4, dl \in {-1, 1}, dh \in {-1, 1} :
         /\ k * 67108864 + dl <= m * 67108864 + dh
         /\ vec' = Ev("log_encode", [inst |-> EncInst("integer", B(Mk(k * 67108864 + dl, 67108864), Mk(m * 67108864 + dh, 67108864))), vid |-> 4])
+  \* the binaries are FRESH on every call: a second encoding of the same variable, and an instance that already holds a
+  \* variable labelled like a log-encoding bit of it (as an earlier call leaves behind), get new ids all the same
+  \/ \E w \in {1, 2, 5}, kind2 \in {"binary", "integer"} :
+        LET lab == [V(7, kind2, B(Zero, One)) EXCEPT !.name = <<"ommx.log_encode">>, !.subs = <<4, 0>>]
+            inst == [EncInst("integer", B(R(0), R(w))) EXCEPT !.vars = @ \o << lab >>] IN
+        vec' = Ev("log_encode", [inst |-> inst, vid |-> 4])
+  \/ \E w \in {1, 2, 5} : vec' = Ev("seq", [inst |-> EncInst("integer", B(R(0), R(w))),
+                                          ops |-> << [op |-> "log_encode", vid |-> 4], [op |-> "log_encode", vid |-> 4] >>])
   \/ \E bad \in {"unknown", "continuous", "binary", "nobound", "inf_hi", "inf_lo", "inf_both", "empty"} :
         vec' = Ev("log_encode", [inst |-> CASE bad = "continuous" -> EncInst("continuous", B(R(0), R(3)))
                                             [] bad = "binary" -> EncInst("binary", B(R(0), R(1)))
@@ -104,6 +112,13 @@ EvalOp(x, y) == [op |-> "evaluate", cid |-> 0, reason |-> "", rparams |-> <<>>, 
 WithSt(o) == [o EXCEPT !.cid = @] @@ [st |-> <<>>]
 NextHistories == \E k \in 1..HistLen : \E s \in [1..k -> Ops] : \E x \in {R(0), R(2)}, y \in {R(0), R(1)} :
     vec' = Ev("seq", [inst |-> HInst, ops |-> [ i \in 1..k |-> WithSt(s[i]) ] \o << EvalOp(x, y) >>])
+\* the same on the tolerance instance: a constraint whose value lies between the bound tolerance 1e-7 and the feasibility
+\* tolerance 1e-6 (67u), just outside it (68u) or inside both (6u) must be judged alike whether it is active or removed
+TolOps == { [op |-> "relax", cid |-> c, reason |-> "why", rparams |-> <<>>] : c \in {10, 11} }
+          \cup { [op |-> "restore", cid |-> c, reason |-> "", rparams |-> <<>>] : c \in {12} }
+TolEval(k) == [op |-> "evaluate", cid |-> 0, reason |-> "", rparams |-> <<>>, st |-> << <<1, G(k)>>, <<2, <<1,2>> >>, <<3, R(1)>> >>]
+NextHistoriesTol == \E n \in 0..2 : \E s \in [1..n -> TolOps] : \E k \in {-68, -67, -6, 6, 67, 68} :
+    vec' = Ev("seq", [inst |-> TolInst, ops |-> [ i \in 1..n |-> WithSt(s[i]) ] \o << TolEval(k) >>])
 \* ---- C06 ----------------------------------------------------------------------------------------------------------
 SInst == Inst("min", << V(1, "integer", B(R(0), R(3))), V(2, "binary", <<>>), V(5, "continuous", B(R(-1), PInf)) >>, L(<< T(1, R(1)), T(2, R(-1)) >>, Zero),
               << C(10, "le", L(<< T(1, R(1)), T(2, R(1)) >>, R(-2))) >>, << Rm(C(12, "eq", L(<< T(1, R(1)) >>, R(-1))), "r0") >>, <<>>)
@@ -222,7 +237,7 @@ Step(A) == phase = 0 /\ phase' = 1 /\ A
 Init == vec = <<>> /\ phase = 0
 DoEvaluate == Step(NextTol \/ NextTolExact \/ NextIrrelevant \/ NextBinaryBound \/ NextDeps)
 DoLogEncode == Step(NextLogEncode)
-DoHistories == Step(NextHistories)
+DoHistories == Step(NextHistories \/ NextHistoriesTol)
 DoSamples == Step(NextSamples \/ NextTolExact \/ NextSamplesHelpers)
 DoBest == Step(NextBest \/ NextAsMin)
 DoQubo == Step(NextQubo)
